@@ -484,7 +484,9 @@ func (g *xGen) stmtsIn(b *xBody, fs []*xBody, cs []*xClass, n int, depth int, to
 				out = append(out, &xStmt{Kind: "if", Cond: g.t.Draw(3) == 0, Then: []*xStmt{th}})
 			}
 		case k == 12:
-			st := &xStmt{Kind: []string{"div0", "conv"}[g.t.Draw(2)], Var: g.local()}
+			// failing built-in operations, two of them failing in the (simulated) file system:
+			// a path that opens but cannot be read, and a path that does not exist
+			st := &xStmt{Kind: []string{"div0", "conv", "ioread", "ioopen"}[g.t.Draw(4)], Var: g.local()}
 			if g.t.Draw(3) == 0 {
 				out = append(out, st)
 			} else {
@@ -550,6 +552,14 @@ func (x *xRender) noise(indent int) {
 		x.emit(indent, "// 行注释 😀")
 	case 4:
 		x.emit(indent, "令"+fmt.Sprintf("串%d", x.line)+" = “多行文本\n第二行\n第三行”")
+	case 5: // an empty line inside a literal
+		x.emit(indent, "令"+fmt.Sprintf("串%d", x.line)+" = “多行文本\n\n第三行”")
+	case 6: // several empty lines, and a line break right before the closing quote
+		x.emit(indent, "令"+fmt.Sprintf("串%d", x.line)+" = “甲\n\n\n\n乙\n”")
+	case 7: // an empty line inside a comment
+		x.emit(indent, "注：“多行注释\n\n"+strings.Repeat("\t", indent)+"第三行”")
+	case 8: // literal and comment whose inner line breaks follow the file's own convention
+		x.emit(indent, "令"+fmt.Sprintf("串%d", x.line)+" = “多行文本"+x.nl+x.nl+"第三行"+x.nl+"”")
 	}
 }
 
@@ -622,6 +632,10 @@ func (x *xRender) stmts(indent int, ss []*xStmt) {
 			s.Line = x.emit(indent, fmt.Sprintf("令%s = 1 / 0", s.Var))
 		case "conv":
 			s.Line = x.emit(indent, fmt.Sprintf("令%s = 以“非数”（转换数值）", s.Var))
+		case "ioread":
+			s.Line = x.emit(indent, fmt.Sprintf("令%s = （读取文件：“%s”）", s.Var, excDirPath))
+		case "ioopen":
+			s.Line = x.emit(indent, fmt.Sprintf("令%s = （读取文件：“%s”）", s.Var, excMissingPath))
 		case "ret":
 			if s.RetVar != "" {
 				s.Line = x.emit(indent, "输出"+s.RetVar)
@@ -675,6 +689,7 @@ func renderModule(t *zsim.Tape, m *xModule, withProbe bool) {
 	if withProbe {
 		x.emit(0, "导入《@探针》")
 	}
+	x.emit(0, "导入《@文件》")
 	for _, im := range m.Imports {
 		x.emit(0, "导入“"+im+"”")
 	}
@@ -868,6 +883,10 @@ func (m *xRef) run(ss []*xStmt) (ret *xVal, ex *xRaise) {
 			return nil, m.raise("异常", "被除数不得为0", "div0")
 		case "conv":
 			return nil, m.raise("异常", "转成数值失败，文本可能并不符合合适的数值格式", "conv")
+		case "ioread":
+			return nil, m.raise("异常", "读取文件失败：read "+excDirPath+": is a directory", "ioread")
+		case "ioopen":
+			return nil, m.raise("异常", "打开文件失败：open "+excMissingPath+": no such file or directory", "ioopen")
 		case "ret":
 			var v xVal
 			if s.RetVar != "" {
@@ -1033,6 +1052,13 @@ type excScenario struct {
 	GotChain string            `json:"got_chain,omitempty"`
 }
 
+// two paths of the simulated file system that make 读取文件 fail: one opens (it is a
+// directory) and fails in read, the other does not exist
+const (
+	excDirPath     = "/proj/数据目录"
+	excMissingPath = "/proj/无此文件.txt"
+)
+
 func modFile(name string) string {
 	if name == "主" {
 		return "/proj/main.zn"
@@ -1061,6 +1087,7 @@ func runExc(t *zsim.Tape, cfg *hlib.Config, prop string) *hlib.Outcome {
 		d.Put(modFile(m.Name), []byte(m.Source))
 		sc.Modules[m.Name] = m.Source
 	}
+	d.MkdirAll(excDirPath)
 	ps := &probeState{plan: plan}
 	w.Ext["probe"] = ps
 	w.Enter()
